@@ -45,16 +45,16 @@ structure Net where
 deriving Repr, DecidableEq
 
 /-- `Link.can_transmit_frame` / `AirSpace.can_transmit_frame`: `load + size <= capacity`. -/
-def admit (load size cap : Nat) : Bool := decide (load + size ≤ cap)
+def admits (load size cap : Nat) : Bool := decide (load + size ≤ cap)
 
 /-- Order of the steps of `Link.transmit_frame` (compared with the order read from the source, Gen.Link). -/
 def transmitOrder : List String := ["size", "reserve", "deliver", "rollback"]
 /-- Order of the steps of `AirSpace.transmit`. -/
 def airTransmitOrder : List String := ["reserve", "deliver"]
 /-- Order of the steps of the three `send_frame` methods. -/
-def wiredSendOrder : List String := ["enabled", "stamp", "admit", "transmit"]
-def switchSendOrder : List String := ["enabled", "admit", "transmit"]
-def wirelessSendOrder : List String := ["enabled", "stamp", "admit", "transmit"]
+def wiredSendOrder : List String := ["enabled", "stamp", "admission", "transmit"]
+def switchSendOrder : List String := ["enabled", "admission", "transmit"]
+def wirelessSendOrder : List String := ["enabled", "stamp", "admission", "transmit"]
 
 /-- What can happen inside one top-level action. -/
 inductive Ev where
@@ -130,7 +130,7 @@ def runEv (n : Net) : Ev → Net × List Rec
                load := l.load, bw := l.bw }])
       if !enS then stay .disabled                       -- send_frame: `if not self.enabled: return False`
       else if !l.isUp then stay .down                   -- can_transmit_frame: `if self.is_up: … return False`
-      else if !admit l.load s l.bw then stay .full      -- dropped at the sender
+      else if !admits l.load s l.bw then stay .full      -- dropped at the sender
       else
         -- transmit_frame: reserve, then deliver
         let n1 : Net := { n with links := n.links.set k { l with load := l.load + s } }
@@ -156,7 +156,7 @@ def runEv (n : Net) : Ev → Net × List Rec
           (n, [{ wireless := true, k := c, verdict := v, enS, enR := false, rcv := [], size := s,
                  loadBefore := ch.load, load := ch.load, bw := ch.cap }])
         if !enS then stay .disabled
-        else if !admit ch.load s ch.cap then stay .full
+        else if !admits ch.load s ch.cap then stay .full
         else
           -- AirSpace.transmit: add the load, then hand the frame to every enabled other interface of the frequency
           let n1 : Net := { n with chans := n.chans.set c { ch with load := ch.load + s } }
